@@ -49,12 +49,31 @@ func main() {
 		fmt.Fprintf(os.Stderr, "CHECKER-LOAD-FAILED: %v\n", err)
 		os.Exit(2)
 	}
-	r := chk.NewReport(*prop, *tier)
-	for _, t := range spec.Trusted {
-		r.Trusted[t] = true
-	}
-	for _, rule := range spec.Rules {
-		rule(p, r)
+	r := chk.RunRules(p, spec, *prop, *tier)
+	selfTestFailed := false
+	if *tier == "thorough" && !*noEvidence {
+		// (1) further build configurations
+		cfgs := []chk.Config{{Repo: *repo, Tags: *tags, GOARCH: "386"}, {Repo: *repo, Tags: "", GOARCH: ""}}
+		r.Notes = append(r.Notes, chk.CompareConfigs(r, spec, *prop, cfgs)...)
+		// (2) VTA call-graph cross-check from every exported non-setter entry point
+		r.Notes = append(r.Notes, chk.VTACrossCheck(p, r, chk.AllAPIRoots(p)))
+		// (3) self-test battery in subprocesses on scratch copies
+		self, _ := os.Executable()
+		res, _ := chk.RunSelfTests(*repo, *verif, *prop, self)
+		nOK := 0
+		for _, t := range res {
+			line := fmt.Sprintf("selftest %-40s expect=%-9s %s", t.Case.Name, t.Case.Expect, t.Detail)
+			r.Notes = append(r.Notes, line)
+			fmt.Println(line)
+			if t.OK {
+				nOK++
+			} else {
+				selfTestFailed = true
+			}
+		}
+		r.Notes = append(r.Notes, fmt.Sprintf("self-test battery: %d cases, %d as expected", len(res), nOK))
+		// (4) cross-reference tools, information only
+		r.Notes = append(r.Notes, chk.CrossReference(*repo)...)
 	}
 	known, err := chk.LoadKnown(filepath.Join(*verif, "known_findings.txt"))
 	if err != nil {
@@ -70,6 +89,10 @@ func main() {
 	code := r.Finish(out, known, note, spec.Explain)
 	if *noEvidence {
 		os.RemoveAll(out)
+	}
+	if selfTestFailed {
+		fmt.Println("CHECKER-SELFTEST-FAILED: the checker did not react to a self-test variant as expected (a defect of the machinery, not of mxj)")
+		os.Exit(2)
 	}
 	os.Exit(code)
 }
